@@ -75,6 +75,9 @@ Qed.
 Definition Seg_inv (r : roller) (g : gstate) (f : fs) : Prop :=
   content f Active = concat (fst g) /\ Arch_inv r (map (@concat N) (snd g)) f.
 
+Lemma concat_snoc_b : forall (l : list bytes) (x : bytes), concat (l ++ [x]) = concat l ++ x.
+Proof. intros. apply concat_snoc. Qed.
+
 Lemma ghost_app : forall a b g, ghost (a ++ b) g = ghost b (ghost a g).
 Proof. intros; unfold ghost; apply fold_left_app. Qed.
 
@@ -97,24 +100,24 @@ Proof.
     + destruct H as (Hev & Ha & Hr). rewrite Hev.
       destruct (trigger_fire (trig c) s (blen v)); cbn [ghost fold_left gstep fst snd].
       * split.
-        { unfold content; rewrite Ha. cbn [fst app concat]. Show. rewrite app_nil_r. reflexivity. }
+        { unfold content; rewrite Ha. exact (eq_sym (concat_snoc [] r)). }
         { cbn [snd map]. rewrite <- Hact.
           eapply Arch_inv_ext; [exact Hr|].
           apply do_roll_arch; [|exact L0].
           eapply Arch_inv_ext; [exact A0|exact Harch]. }
       * split.
-        { unfold content; rewrite Ha. cbn [fst]. rewrite concat_snoc, <- Hact. reflexivity. }
+        { unfold content; rewrite Ha. cbn [fst]. rewrite (concat_snoc_b cur r), <- Hact. reflexivity. }
         { cbn [snd]. eapply Arch_inv_ext; [exact Hr|exact Harch]. }
     + destruct H as (Hev & Ha & Hr). rewrite Hev.
       destruct (trigger_fire (trig c) s (blen (v ++ r))); cbn [ghost fold_left gstep fst snd].
       * split.
         { unfold content; rewrite Ha. reflexivity. }
-        { cbn [map]. rewrite concat_snoc, <- Hact.
+        { cbn [snd map]. rewrite (concat_snoc_b cur r), <- Hact.
           eapply Arch_inv_ext; [exact Hr|].
           apply do_roll_arch; [|exact E1].
           eapply Arch_inv_ext; [|exact Harch]. intros i; rewrite E3. apply A0. }
       * split.
-        { unfold content; rewrite Ha. rewrite concat_snoc, <- Hact. reflexivity. }
+        { unfold content; rewrite Ha. cbn [fst]. rewrite (concat_snoc_b cur r), <- Hact. reflexivity. }
         { eapply Arch_inv_ext; [exact Hr|exact Harch]. }
   - (* restart *)
     destruct (build_spec a (files s) (consults s)) as (_ & _ & _ & Hev & Ha & Hr).
@@ -202,7 +205,7 @@ Proof.
     destruct (is_pre (trig c)); destruct H as (-> & _); split; try reflexivity;
       intros _; repeat constructor.
   - destruct (build_spec a (files s) (consults s)) as (_ & _ & _ & -> & _).
-    destruct a; split; try reflexivity; intro H; try constructor. congruence.
+    destruct a; split; try reflexivity; intro H; [constructor|congruence].
 Qed.
 
 Lemma wrote_app : forall a b, wrote (a ++ b) = wrote a ++ wrote b.
@@ -253,7 +256,7 @@ Lemma seq_from : forall b k, seq b k = map (fun j => b + j) (seq 0 k).
 Proof.
   intros b k; revert b; induction k as [|k IH]; intros b; [reflexivity|].
   cbn [seq map]. rewrite Nat.add_0_r. f_equal.
-  rewrite <- seq_shift, map_map, (IH (S b)). apply map_ext. intros; lia.
+  rewrite <- (seq_shift k 0), map_map, (IH (S b)). apply map_ext. intros; lia.
 Qed.
 
 Lemma nth_error_map_concat : forall (l : list (list bytes)) j,
@@ -306,7 +309,7 @@ Proof.
          (rev (map (fun j => nth j closed []) (seq 0 k)) ++ [cur]).
   split; [|split; [|split; [|split]]].
   - rewrite concat_snoc, map_nth_seq_gen, rev_app_distr, rev_repeat_id, concat_app,
-      concat_repeat_nil. cbn [app]. rewrite app_assoc, <- concat_app, <- rev_app_distr,
+      concat_repeat_nil. rewrite !app_nil_l in *. rewrite app_assoc, <- concat_app, <- rev_app_distr,
       firstn_skipn. exact GS.
   - unfold read_order. fold k. rewrite !map_app. cbn [map]. f_equal; [|rewrite Hact; reflexivity].
     rewrite map_rev, map_rev, !map_map. f_equal.
